@@ -40,9 +40,36 @@ let u_relex c =
     let model = (match lex (bytes_of_string out) with
         | Some toks -> cut out (List.map (fun ((w, n), ty) -> (int_of_nat w, int_of_nat n, name_of_rtt ty)) toks)
         | None -> []) in
+    (* … and against the INPUT's tokens: same kinds, same text except the documented normalisations *)
+    let pos = ref 0 in
+    let input_toks = List.map (fun (w, n, ty) -> let ct = String.sub c.input (!pos + w) n in pos := !pos + w + n; (ty, ct)) c.raw in
+    let starts_with p s = String.length s >= String.length p && String.sub s 0 (String.length p) = p in
+    let norm_eq ty (a : string) (b : string) =
+      if a = b then true
+      else if starts_with "Keyword(" ty || starts_with "IdentifierOrKeyword(" ty then String.lowercase_ascii a = b
+      else if ty = "CompilerDirective" || starts_with "ConditionalDirective(" ty then String.lowercase_ascii a = String.lowercase_ascii b
+      else if ty = "Comment(InlineLine)" || ty = "Comment(IndividualLine)" then
+        strip (bytes_of_string a) = strip (bytes_of_string b) && starts_with "//" b
+      else if ty = "TextLiteral(MultiLine)" then
+        let x = bytes_of_string a and y = bytes_of_string b in
+        ml_value x = ml_value y && List.hd (lines_custom x) = List.hd (lines_custom y)
+        && strip (bytes_of_string a) = strip (bytes_of_string b)
+      else false in
+    let against_input () =
+      if List.length model <> List.length input_toks then Some "token count differs from the input's scan"
+      else begin
+        let bad = ref None in
+        List.iteri (fun i ((t, x), (t', y)) ->
+          if !bad = None && not (t = t' && norm_eq t x y) then
+            bad := Some (Printf.sprintf "token %d: input %s %s re-scans from the output as %s %s (not a documented normalisation)" i t (hex x) t' (hex y)))
+          (List.combine input_toks model);
+        !bad
+      end in
     (match check "model lexer" model with
      | Some d -> Viol ("rescan_differs", d)
-     | None -> (match check "real lexer" (cut out c.relex) with Some d -> Viol ("rescan_differs", d) | None -> Ok_))
+     | None -> (match check "real lexer" (cut out c.relex) with
+         | Some d -> Viol ("rescan_differs", d)
+         | None -> (match against_input () with Some d -> Viol ("rescan_differs", d) | None -> Ok_)))
   | _ -> Skip
 
 let () = register [ ("spacing", u_spacing); ("fmtdata", u_fmtdata); ("relex", u_relex) ]
